@@ -60,6 +60,20 @@ def run(ctx, res):
         n = 1 + ctx.rng.below(14)
         text = " ".join(ctx.rng.choice(soup_tokens) for _ in range(n))
         cases.append({"id": len(cases), "kind": ctx.rng.choice(["op", "op", "ts"]), "cp": [ord(c) for c in text]})
+    # well-formed documents that `check` tends to accept although they are unusual: one response key used for different fields /
+    # shapes, the same fragment spread several times under different conditions, conditions on every kind of selection
+    pieces = ["a", "x: a", "x: b", "x: q { a }", "q { a }", "q { x: a }", "q { x: q { a } }", "x: qs { a }", "qs { a }", "qs { x: b }", "n { id }",
+              "x: n { id }", "n { ... on U { name } }", "n { ... on U { x: name } ... on Node { x: id } }", "...F", "...F @include(if: $a)",
+              "...F @skip(if: $b)", "...G", "...G @skip(if: $a)", "... on Query { x: a }", "... on Query { q { b } }", "... @include(if: $a) { q { b } }",
+              "... @skip(if: $b) { x: q { a } }", "a @skip(if: $a)", "x: a @include(if: $b)", "q @include(if: $a) { a }", "q @skip(if: $b) { b }",
+              "__typename", "x: __typename", "q { __typename }", "b(x: 1)", "x: b(x: 2)", "b(s: \"s\")", "a @skip(if: true)", "a @include(if: false)"]
+    nsem = 3000 if ctx.quick else 100000
+    for _ in range(nsem):
+        body = " ".join(ctx.rng.choice(pieces) for _ in range(1 + ctx.rng.below(5)))
+        fbody = " ".join(ctx.rng.choice(pieces[:14] + pieces[19:]) for _ in range(1 + ctx.rng.below(3)))
+        gbody = " ".join(ctx.rng.choice(pieces[:13] + pieces[23:]) for _ in range(1 + ctx.rng.below(3)))
+        text = "query Q($a: Boolean!, $b: Boolean!) { %s }\nfragment F on Query { %s }\nfragment G on Query { %s }\n" % (body, fbody, gbody)
+        cases.append({"id": len(cases), "kind": "op", "cp": [ord(c) for c in text]})
     uni = [0, 1, 9, 10, 13, 32, 34, 35, 92, 123, 125, 0x7f, 0x80, 0xa0, 0x2028, 0xd7ff, 0xe000, 0xfeff, 0xfffd, 0xffff, 0x10000, 0x1f600, 0x10ffff, 97, 49]
     for _ in range(1000 if ctx.quick else 30000):
         n = 1 + ctx.rng.below(30)
@@ -96,11 +110,12 @@ def run(ctx, res):
     res.distinct_nontrivial = sum(1 for e in events if len(e["stages"]) > 1)
     res.rule = ("Spec->impl: Gen_C08 enumerates the token-mutation space (document x token position x {delete, dup, swap, replace, insert, "
                 "truncate} x 28 replacement token classes; positions stepped by %s) over %d catalogue documents: %d mutated texts; plus the "
-                "unmutated documents, %d random token soups, random Unicode strings, nesting depth 8/32/64 and %d configuration texts. Every "
+                "unmutated documents, %d random token soups, %d grammar-built documents that reuse response keys for different fields / shapes and "
+                "spread one fragment several times under different conditions, random Unicode strings, nesting depth 8/32/64 and %d configuration texts. Every "
                 "text is fed to every stage the pipeline model reaches (parse, extensions, imports, check, then generation or diagnostic "
                 "rendering; and the loader ABI without check) in crash-isolated child processes. Impl->spec: Trace_C08 accepts only ok/err "
                 "outcomes within 5 s per stage and checks the stage order against the model. Non-trivial = input that got past the first stage."
-                % ("5" if ctx.quick else "1", len(docs), nmut, nsoup, len(CONFIGS)))
+                % ("5" if ctx.quick else "1", len(docs), nmut, nsoup, nsem, len(CONFIGS)))
     res.samples = ["".join(chr(c) for c in cases[i]["cp"])[:200] for i in (0, nmut // 2, nmut + 5)] + [events[0]["stages"]]
     res.extra.update({"mutated_texts": nmut, "total_inputs": len(cases), "stage_outcomes": reach, "trace_action_coverage": o.coverage})
     res.assumptions = ["universal claim over all byte sequences is exploration; the specification contributes the acceptance criterion, the stage "
